@@ -292,9 +292,11 @@ def build(repo, native, tier, seed, log=None):
         if nkeys <= 12:
             add_spec(name, maps, 3 if nkeys <= 8 else 2 if quick else 3, D, note='loaded by the real loader')
         else:
-            lim = 3 if quick else 12
+            small = len(maps) <= 60
+            lim = (4 if quick else (6 if small else 12))
+            n_big = (3 if small else 2) if quick else (4 if small else 3)
             alphas, total, ncls = sub_alphabets(maps, mods, lim, rng)
             for j, (alpha, why) in enumerate(alphas):
-                add_spec('%s/alpha%d' % (name, j), maps, 2 if quick else 3, D, alphabet=alpha,
+                add_spec('%s/alpha%d' % (name, j), maps, n_big, D, alphabet=alpha,
                          note='sub-alphabet (%s); %d of %d candidate sub-alphabets, %d mapping classes' % (why, len(alphas), total, ncls))
     return specs
